@@ -13,11 +13,19 @@ Spec == Init /\ [][Next]_c
 O == Obs[c]
 Reg == O.input.reg
 Valid(k) == DecodesExactly(Reg, O.checks[k].id, O.checks[k].bytes)
+\* ordered collections canonicalise (sort, de-duplicate) on decoding: an arbitrary sequence is a valid encoding of the registry's
+\* sequence-of-elements shape but re-encodes in canonical order; for them only "decodes and consumes all input" is required
+Canonicalises(id) == \E j \in Reach(Reg, id) : HasId(Reg, j) /\ Ty(Reg, j).path \in {<<"BTreeMap">>, <<"BTreeSet">>, <<"BinaryHeap">>}
 Failed ==
   (IF O.emitted /\ ~O.compiled THEN {"C02.CompilesUnderRustc"} ELSE {})
-  \cup (IF O.compiled /\ \E k \in DOMAIN O.checks : Valid(k) /\ ~(O.checks[k].decode /\ O.checks[k].rest = 0 /\ O.checks[k].same) THEN {"C01.DecodesConsumesAllReencodesSame"} ELSE {})
+  \cup (IF O.compiled /\ \E k \in DOMAIN O.checks : Valid(k) /\ ~(O.checks[k].decode /\ O.checks[k].rest = 0 /\ (O.checks[k].same \/ Canonicalises(O.checks[k].id))) THEN {"C01.DecodesConsumesAllReencodesSame"} ELSE {})
 \* bytes produced by scale-encode that the specification's decoder does not accept: a disagreement between the two oracles, not a verdict
 OracleDisagreement == {k \in DOMAIN O.checks : ~Valid(k)}
-Verdict == PrintT("V " \o ToJson([case |-> O.case, failed |-> Failed, known |-> {}, drift |-> FALSE, disagree |-> Cardinality(OracleDisagreement),
+\* known finding D11: a generic definition that refers to itself is emitted with a root-qualified self-reference, which defeats the
+\* codec derive's detection of the self-reference (rustc: E0275 overflow) although the source definition compiles
+GenericSelfRecursive == \E id \in Ids(Reg) : IsUserPath(Ty(Reg, id).path) /\ ParamRefs(Ty(Reg, id)) # {} /\ OnCycle(Reg, id)
+Known == IF O.emitted /\ ~O.compiled /\ (\E i \in DOMAIN O.errors : O.errors[i] = "E0275") /\ GenericSelfRecursive
+         THEN {<<"C02.CompilesUnderRustc", "Typegen.QualifiedSelfReference">>} ELSE {}
+Verdict == PrintT("V " \o ToJson([case |-> O.case, failed |-> Failed, known |-> Known, drift |-> FALSE, disagree |-> Cardinality(OracleDisagreement),
                                   nchecks |-> Len(O.checks), compiled |-> O.compiled, errors |-> O.errors]))
 =================================================================================
